@@ -112,7 +112,7 @@ HandleOps(h) ==
 LiveWriterOps ==
     UNION { LET w == hd[h] IN
             IF w.kind # "writer" THEN {}
-            ELSE { [op |-> "w_write", h |-> h, len |-> n]
+            ELSE { [op |-> "w_write", h |-> h, len |-> n, all |-> TRUE]
                      : n \in { m \in 0..2 : w.n + m <= MCLenOf(w.plan) } }
                  \cup (IF w.n = MCLenOf(w.plan)
                        THEN { [op |-> "w_commit", h |-> h, fed |-> w.plan, now |-> t, now_ok |-> TRUE]
